@@ -117,7 +117,7 @@ func c05Predicates(rep *common.Report) {
 					What:    fmt.Sprintf("Melange{%d, %d}.Empty() = %v", a.v, b.v, m.Empty()),
 					Witness: map[string]any{"currency": fmt.Sprint(a.v), "supplementary": fmt.Sprint(b.v)}})
 			}
-			for _, data := range [][]byte{nil, []byte("d")} {
+			for _, data := range [][]byte{nil, {}, []byte("d")} {
 				t := transaction.Transaction{Spice: m, Data: data}
 				if t.IsSpiceTransfer() != !zero {
 					rep.Add(common.Violation{Predicate: "C05.predicates", Key: "C05.predicate-wrong/IsSpiceTransfer",
